@@ -51,12 +51,34 @@ class VirtualClock:
 
     monotonic = perf_counter = time
 
-    def installed(self, *modules):
-        """patch `time` in the given library modules AND time.time / monotonic / perf_counter of the
-        time module itself, so the clock is owned however the library spells the call"""
+    def time_ns(self):
+        return int(self() * 1e9)
+
+    monotonic_ns = perf_counter_ns = time_ns
+
+    def installed(self, *modules, package="pyphysim"):
+        """Own every clock reading of the library however it is spelt: time.time / monotonic /
+        perf_counter (and the _ns variants) are replaced in the time module itself (covers
+        `import time; time.time()`), and every name in a loaded module of `package` (plus the given
+        modules) that is bound to one of those functions (covers `from time import time, monotonic`)
+        is rebound to this clock."""
+        import sys
         import time as _t
-        triples = [(m, "time", self) for m in modules if hasattr(m, "time")]
-        triples += [(_t, "time", self), (_t, "monotonic", self), (_t, "perf_counter", self)]
+        names = ("time", "monotonic", "perf_counter", "time_ns", "monotonic_ns", "perf_counter_ns")
+        real = {}
+        for n in names:
+            real[id(getattr(_t, n))] = n
+        mods = list(modules)
+        for name, m in list(sys.modules.items()):
+            if m is not None and (name == package or name.startswith(package + ".")) and m not in mods:
+                mods.append(m)
+        triples = []
+        for m in mods:
+            for attr, val in list(vars(m).items()):
+                n = real.get(id(val))
+                if n is not None and getattr(_t, n) is val:
+                    triples.append((m, attr, self if n == "time" else getattr(self, n)))
+        triples += [(_t, n, self if n == "time" else getattr(self, n)) for n in names]
         return patched(*triples)
 
 
